@@ -114,6 +114,18 @@ def generate(rng, tier):
             c5, s5, h5 = rng.choice([(3, 4, 5), (4, 3, 5), (20, 21, 29), (21, 20, 29)])
             pts = [(c5 * x - s5 * y, s5 * x + c5 * y) for x, y in pts]; tol = tol * h5
         cases.append({"kind": "s", "pts": [(F(ox + x), F(oy + y)) for x, y in pts], "tol": F(tol), "as_float": True, "family": "float-on-whole-numbers/knife-edge"})
+    # one vertex object at several places of the list (a closed outline whose last entry IS its first, an outline traced twice, a path
+    # through a node it visits again): deleting one occurrence must not take the others with it.  The run on the list with shared
+    # objects must give, place by place, what the run on distinct copies gives (which is the run that is judged)
+    for _ in range(max(12, n // 20)):
+        base = _path(rng)
+        if len(base) < 3: continue
+        k = rng.choice(["closed", "twice", "revisit"])
+        if k == "closed": idx = list(range(len(base))) + [0]
+        elif k == "twice": idx = (list(range(len(base))) + [0]) * 2
+        else:
+            j = rng.randrange(len(base)); idx = list(range(len(base))) + [j] + [rng.randrange(len(base)) for _ in range(rng.randint(1, 3))]
+        cases.append({"kind": "s", "pts": [base[i] for i in idx], "share": idx, "tol": _tol(rng, base), "family": "shared-vertex-objects/" + k})
     # float runs (the arithmetic of the code is the double-precision one): long, nearly straight runs with a tiny tolerance - the
     # offsets are a few tolerances, the chord 1e7..1e11 tolerances long - and ordinary drawing-sized float data; judged exactly
     import math
@@ -142,6 +154,14 @@ def run_impl(c):
         plot_utils.supersample(work, cv(c["tol"]))
         ident = {id(o): i for i, o in enumerate(objs)}
         kept = [ident.get(id(o), -1) for o in work]
+        if c.get("share"):
+            uniq = {}
+            shared = [uniq.setdefault(j, [cv(x), cv(y)]) for j, (x, y) in zip(c["share"], c["pts"])]       # equal indices -> the very same object
+            work2 = list(shared)
+            plot_utils.supersample(work2, cv(c["tol"]))
+            same = len(work2) == len(work) and all(a[0] == b[0] and a[1] == b[1] for a, b in zip(work2, work)) and all(any(o is q for q in shared) for o in work2)
+            if not same:
+                return {"raise": "SharedObjectsChangeTheResult", "msg": "with distinct objects %d vertices survive, with shared objects %d: %r" % (len(work), len(work2), work2[:8])}
         return {"kept": kept}
     pit = plot_utils.points_in_tolerance(c["pts"], c["tol"])
     md = plot_utils.max_dist_from_n_points([(float(x), float(y)) for x, y in c["pts"]])
